@@ -5,7 +5,7 @@
     (the property's own restriction). *)
 From Coq Require Import List String Ascii Bool Arith Permutation.
 From Spil Require Import Base.Str Base.Dict Base.Outcome Regex.Re Regex.MatchProofs Resolva.Template Resolva.Resolver
-  Conf.Conf Conf.WF Sid.Query Sid.Sid Sid.TypingSpec Sid.TypingProofs Sid.SidProofs Sid.QueryStringProofs Sid.QueryProofs.
+  Conf.Conf Conf.WF Sid.Query Sid.Sid Sid.TypingSpec Sid.TypingProofs Sid.SidProofs Sid.QueryStringProofs Sid.QueryProofs Sid.ReprProofs.
 From SpilGen Require Hamlet.
 Import ListNotations.
 Local Open Scope string_scope.
@@ -51,6 +51,14 @@ Theorem C02_query : forall c Ld, load c = Some Ld -> wf_loadedb Ld = true ->
   to_dict (to_string (s_fields x)) = Ok (s_fields x) /\ sid_factory Ld (FromQuery (as_query x)) = Ok x.
 Proof. exact roundtrip_query. Qed.
 Print Assumptions C02_query.
+
+(* eval(repr(sid)): [py_unrepr] is what python's eval gives for the literal Sid('<uri>') when the uri has no quote,
+   backslash, newline, carriage return or NUL (modelled, not verified) *)
+Theorem C02_repr : forall c Ld, load c = Some Ld -> wf_loadedb Ld = true ->
+  forall x, naturally_typed Ld x -> mem_c "?" (s_string x) = false -> all_c plain_char (uri x) = true ->
+  exists u, py_unrepr (repr x) = Some u /\ Sid Ld u = Ok x.
+Proof. exact repr_roundtrip. Qed.
+Print Assumptions C02_repr.
 
 (* instance + non-vacuity on today's configuration: a concrete typed Sid, rebuilt from shuffled fields *)
 Example C02_instance :
